@@ -14,5 +14,7 @@ def run(ctx):
     print_string(ctx)          # nested values in a field are printed by the JSON string printer (utf8 on): control characters stay escaped
     from ..scen_misc import titles
     titles(ctx)
+    from ..scen_expr import selection_name
+    selection_name(ctx)       # the column name given after `=` is kept byte for byte
     from ..conform import conformance
     conformance(ctx, ['csv'])      # the references the obligations are stated against, compared with jawk::go on concrete runs (validates the oracles; never decides)
